@@ -95,13 +95,48 @@ def directed_recheckout_abort():
     finally:
         shutil.rmtree(base, ignore_errors=True)
 
+def directed_partial_output(mode):
+    """a build / package script fails after writing partial output; the next invocation (cause removed) must end with exactly what a
+    clean build gives -- in clean-build mode and for every package step the script starts from an empty workspace"""
+    import tempfile, shutil
+    base = tempfile.mkdtemp(prefix='c05p-'); log = []
+    try:
+        flag = os.path.join(base, 'FAIL')
+        def script(out):
+            return 'if [ -e "%s" ]; then echo junk > partial-%s.txt; mkdir -p stage; echo half > stage/half.bin; exit 1; fi\necho good > %s\n' % (flag, out, out)
+        for victim in (('package', 'build') if mode == 'build' else ('package',)):      # (develop mode re-runs build scripts on the old workspace by design)
+            R = {'r0': {'root': True, 'depends': ['lib'], 'buildScript': 'cat "$2"/*.txt > out.txt\n', 'packageScript': 'cp "$1"/out.txt result.txt\n'},
+                 'lib': {'buildScript': (script('out.txt') if victim == 'build' else 'echo good > out.txt\n'),
+                         'packageScript': (script('result.txt') if victim == 'package' else 'cp -r "$1"/. .\n')}}
+            p = P.Project(root=os.path.join(base, 'proj-' + victim)); p.write({'recipes': R, 'config': {}})
+            open(flag, 'w').close()
+            rc, out = p.bob(mode, 'r0'); log.append('%s script of lib fails after partial output (%s)' % (victim, mode))
+            if rc == 0: return {'kind': 'failed-step-not-reported', 'history': log}, log
+            os.unlink(flag)
+            rc, out = p.bob(mode, 'r0'); log.append('cause removed, run again')
+            if rc != 0: return None, ['harness problem: second run failed: %s' % out[-200:]]
+            inc = H.dist_contents(p, None)
+            c = P.Project(root=os.path.join(base, 'clean-' + victim)); c.write({'recipes': R, 'config': {}})
+            rc2, out2 = c.bob(mode, 'r0')
+            if rc2 != 0: return None, ['harness problem: clean build failed']
+            ref = H.dist_contents(c, None); c.cleanup()
+            for name, dig in ref.items():
+                if inc.get(name) != dig:
+                    return {'kind': 'result-after-failed-step-differs-from-clean-build', 'package': name, 'mode': mode, 'history': log,
+                            'what': 'the re-run of a failed %s step continued on the partial output of the failed run' % victim}, log
+        return None, log
+    except Exception as ex:
+        return None, ['harness problem: %r' % (ex,)]
+    finally:
+        shutil.rmtree(base, ignore_errors=True)
+
 def replay(rep):
     seed = int(os.environ.get('VERIF_SEED', '0') or 0)
     thorough = os.environ.get('VERIF_TIER') == 'thorough'
     n = 40 if thorough else 12; steps = 4 if thorough else 2
     tried = 0; distinct = set(); samples = []; problems = 0
     with cf.ThreadPoolExecutor(max_workers=8) as ex:
-        futs = [ex.submit(directed_recheckout_abort)] + [ex.submit(one_history, seed * 1000 + i, steps) for i in range(n)]
+        futs = [ex.submit(directed_recheckout_abort), ex.submit(directed_partial_output, 'build'), ex.submit(directed_partial_output, 'dev')] + [ex.submit(one_history, seed * 1000 + i, steps) for i in range(n)]
         for f in cf.as_completed(futs):
             w, log = f.result(); tried += 1
             if log and (str(log[-1]).startswith('harness problem') or str(log[-1]).startswith('(project does not') or str(log[-1]).startswith('(clean build')): problems += 1; continue
